@@ -79,6 +79,12 @@ MUTATIONS = [
             )
         ],
     ),
+    # seeded/C16-seed2: str.isdigit() takes non-ASCII decimal digits, a dotted quad of them loses its Uri-Host
+    (
+        "C16",
+        "ipv4-detection-by-isdigit",
+        REPAIR + [(MSG, 'and all(c in "0123456789." for c in parsed.hostname)', 'and parsed.hostname.replace(".", "").isdigit()')],
+    ),
     ("C16", "path-quoting-keeps-slash", REPAIR + [(MSG, '_quote_for_path = quote_factory(unreserved + sub_delims + ":@")', '_quote_for_path = quote_factory(unreserved + sub_delims + ":@/")')]),
 ]
 
